@@ -17,7 +17,8 @@
        return reversed(strings)
 
    History.load / get_strings / append_string keep the per-instance cache
-   [_loaded_strings] (newest first) and [_loaded]. *)
+   [_loaded_strings] (newest first) and [_loaded]; load() and get_strings()
+   both read the file first when that has not happened yet (_ensure_loaded). *)
 From Coq Require Import ZArith List Bool.
 From PTK Require Import Lib.Sx Lib.Py Model.C13_Utf8.
 Import ListNotations.
@@ -118,8 +119,10 @@ Definition fstep (st : fstate) (o : fop) : fstate * sx :=
       let it' := if i_loaded it then it else mkinst true (load_bytes (f_file st)) in
       (mkfs (f_file st) (upd (f_insts st) i it'), sx_strs (i_strings it'))
   | OGet i =>
+      (* get_strings() calls _ensure_loaded() first (commit f4f2a3a) *)
       let it := nth i (f_insts st) fresh_inst in
-      (st, sx_strs (rev (i_strings it)))
+      let it' := if i_loaded it then it else mkinst true (load_bytes (f_file st)) in
+      (mkfs (f_file st) (upd (f_insts st) i it'), sx_strs (rev (i_strings it')))
   | ORaw b =>
       let f' := f_file st ++ b in
       (mkfs f' (f_insts st), A (len f'))
